@@ -1,7 +1,8 @@
 ID = "C13"
 LEVEL = "proof"
 TAGS = ("C13",)
-CONTRACT_MODULES = ["contracts.geometry", "contracts.axis", "contracts.state", "contracts.plugin"]
+from props.common import ALL_CONTRACTS
+CONTRACT_MODULES = ALL_CONTRACTS
 P = "__init__.ExcludeRegionPlugin."
 S = "ExcludeRegionState.ExcludeRegionState."
 FUNCTIONS = [P + "on_api_command", P + "on_api_get", P + "_notifyExcludedRegionsChanged", P + "_handleAddExcludeRegion",
